@@ -14,6 +14,8 @@ from __future__ import annotations
 
 import ast
 
+from .helpers import Every  # noqa: E402
+
 from .. import terms as T
 from ..model import AnalysisError, self_attr, stmt_text, walk_no_nested
 from ..paths import unversion
@@ -450,11 +452,12 @@ def _constructor(chk, ctx) -> None:
     fi = ctx.sfi('__post_init__')
     bad = []
     ok_order = False
+    ok_order = Every()
     for p in ctx.paths(fi):
         names = [c.value[1] for c in p.calls() if c.value[0] == 'self']
         if p.raised and ('_setup' in names or '_begin' in names):
             bad.append(p.outcome[2])
         if not p.raised:
-            ok_order = names[-2:] == ['_setup', '_begin']
+            ok_order.see(names[-2:] == ['_setup', '_begin'])
     chk.ob('C07.constructor', 'State.__post_init__', not bad and ok_order, fi.loc,
            'all validation happens before _setup(); construction ends with _setup() then _begin()')
